@@ -481,7 +481,11 @@ Section Blocks.
   Definition temps := list (nat * Z).
   Fixpoint tget (n : nat) (tm : temps) : option Z :=
     match tm with [] => None | (k, z) :: r => if Nat.eqb n k then Some z else tget n r end.
-  Definition tset (n : nat) (z : Z) (tm : temps) : temps := (n, z) :: tm.
+  Fixpoint tset (n : nat) (z : Z) (tm : temps) : temps :=
+    match tm with
+    | [] => [(n, z)]
+    | (k, x) :: r => if Nat.eqb n k then (n, z) :: r else (k, x) :: tset n z r
+    end.
 
   Definition fstate : Type := state * temps.
 
